@@ -532,7 +532,7 @@ func TestVerifC19(t *testing.T) {
 		org := func(id, name, city string) string {
 			return `{"@context":["https://www.w3.org/2018/credentials/v1","https://nuts.nl/credentials/v1"],"id":"did:nuts:issuer#` + id + `","type":["VerifiableCredential","NutsOrganizationCredential"],"issuer":"did:nuts:issuer","issuanceDate":"2024-01-01T00:00:00Z","credentialSubject":{"id":"did:nuts:holder","organization":{"name":"` + name + `","city":"` + city + `"}},"proof":{"type":"JsonWebSignature2020","verificationMethod":"did:nuts:issuer#key-1","proofPurpose":"assertionMethod","created":"2024-01-01T00:00:00Z","jws":"e30..c2ln"}}`
 		}
-		other := `{"@context":["https://www.w3.org/2018/credentials/v1"],"id":"did:nuts:issuer#9","type":["VerifiableCredential","OtherCredential"],"issuer":"did:nuts:issuer","issuanceDate":"2024-01-01T00:00:00Z","credentialSubject":{"id":"did:nuts:holder","x":"y"},"proof":{"type":"JsonWebSignature2020","verificationMethod":"did:nuts:issuer#key-1","proofPurpose":"assertionMethod","created":"2024-01-01T00:00:00Z","jws":"e30..c2ln"}}`
+		other := `{"@context":["https://www.w3.org/2018/credentials/v1"],"id":"did:nuts:issuer#9","type":["VerifiableCredential","OtherCredential"],"issuer":"did:nuts:issuer","issuanceDate":"2024-01-01T00:00:00Z","credentialSubject":{"id":"did:nuts:holder","x":"y","n":5,"arr":["A","B"],"flag":true,"obj":{"a":1}},"proof":{"type":"JsonWebSignature2020","verificationMethod":"did:nuts:issuer#key-1","proofPurpose":"assertionMethod","created":"2024-01-01T00:00:00Z","jws":"e30..c2ln"}}`
 		credSets := [][]string{{org("1", "Care BV", "Caretown")}, {org("1", "Care BV", "Caretown"), org("2", "Cure BV", "Curetown")}, {org("1", "Care BV", "Caretown"), other},
 			{other}, {}, {org("1", "Care BV", "Caretown"), org("1", "Care BV", "Caretown")}, {org("1", "Care BV", "Caretown"), org("2", "Cure BV", "Curetown"), other}}
 		// descriptor bodies: several are satisfied by the SAME credential
@@ -544,6 +544,11 @@ func TestVerifC19(t *testing.T) {
 			`"constraints":{"fields":[{"path":["$.credentialSubject.nope"],"filter":{"type":"string"}}]}`,
 			`"constraints":{"fields":[{"path":["$.type"],"filter":{"type":"string","const":"OtherCredential"}}]}`,
 			`"constraints":{"fields":[{"id":"city","path":["$.credentialSubject.organization.city","$.credentialSubject.x"]}]}`,
+			// schema-valid filters whose type is NOT string but that carry string keywords, on values of every JSON type
+			`"constraints":{"fields":[{"path":["$.credentialSubject.n"],"filter":{"type":"number","pattern":"^5$"}}]}`,
+			`"constraints":{"fields":[{"path":["$.credentialSubject.arr"],"filter":{"type":"array","pattern":"^C$"}}]}`,
+			`"constraints":{"fields":[{"path":["$.credentialSubject.flag","$.credentialSubject.obj","$.credentialSubject.n"],"filter":{"type":"boolean","pattern":"x","const":"true"}}]}`,
+			`"constraints":{"fields":[{"path":["$.credentialSubject.arr","$.credentialSubject.n"],"filter":{"type":"string","pattern":"^A$","enum":["A"]}}]}`,
 		}
 		reqs := []string{``, `"submission_requirements":[{"name":"r","rule":"pick","count":1,"from":"A"}],`, `"submission_requirements":[{"name":"r","rule":"all","from":"A"}],`,
 			`"submission_requirements":[{"name":"r","rule":"pick","min":1,"from":"A"}],`, `"submission_requirements":[{"name":"r","rule":"pick","min":1,"max":2,"from":"A"}],`,
@@ -552,6 +557,7 @@ func TestVerifC19(t *testing.T) {
 			`"submission_requirements":[{"name":"r","rule":"pick","count":1,"from_nested":[{"name":"n1","rule":"all","from":"A"},{"name":"n2","rule":"pick","count":1,"from":"B"}]}],`,
 			`"submission_requirements":[{"name":"r","rule":"all","from_nested":[{"name":"n1","rule":"pick","min":1,"from":"A"},{"name":"n2","rule":"all","from":"B"}]}],`,
 			`"submission_requirements":[{"name":"r","rule":"all","from":"Z"}],`}
+		reqsTyped := []string{``, `"submission_requirements":[{"name":"r","rule":"pick","count":1,"from":"A"}],`}
 		groupings := [][]string{{"A", "A"}, {"A", "B"}, {"A", "A", "A"}, {"A", "A", "B"}, {"A", "B", "B"}, {"A,B", "A"}, {"A", "A", "B", "B"}}
 		mkPD := func(req string, bodies []int, groups []string) string {
 			var ds []string
@@ -578,6 +584,22 @@ func TestVerifC19(t *testing.T) {
 			return string(b)
 		}
 		bodySets := [][]int{{0, 1}, {0, 1, 2}, {0, 4}, {0, 5}, {1, 3}, {0, 1, 2, 3}, {4, 4}, {0, 0}, {6, 1}, {5, 0, 1}}
+		// filters of every type against the credential with values of every type, with and without submission requirements
+		for _, b := range []int{7, 8, 9, 10} {
+			for _, req := range []string{reqsTyped[0], reqsTyped[1]} {
+				pd := `{"id":"pd",` + req + `"input_descriptors":[{"id":"d0",` + map[bool]string{true: `"group":["A"],`, false: ""}[req != ""] + descBodies[b] + `}]}`
+				for _, cs := range [][]string{{other}, {other, org("1", "Care BV", "Caretown")}} {
+					bs, _ := json.Marshal(map[string]any{"pd": json.RawMessage(pd), "vcs": func() []json.RawMessage {
+						var l []json.RawMessage
+						for _, v := range cs {
+							l = append(l, json.RawMessage(v))
+						}
+						return l
+					}()})
+					run("pe.match+validate", string(bs), "typed-filter×typed-value")
+				}
+			}
+		}
 		demoSub := `{"id":"s","definition_id":"pd","descriptor_map":[{"id":"d0","format":"ldp_vc","path":"$.verifiableCredential"}]}`
 		arrSub := `{"id":"s","definition_id":"pd","descriptor_map":[{"id":"d0","format":"ldp_vc","path":"$.verifiableCredential[0]"},{"id":"d1","format":"ldp_vc","path":"$.verifiableCredential[0]"}]}`
 		cnt := 0
